@@ -153,6 +153,9 @@ var tokens = []string{
 	` :x="secret"`, ` v-html="secret"`, "x", "/", "\\", "\n", "&gt;", "&apos;", "<img src=x onerror=a>", "{{ secret + 1 }}", "]]>", "<![CDATA[",
 	"</textarea>", "</title>", "</pre>", "</option>", "</select>", "</td>", "</table>", "</li>", "</button>", "</h1>", "</a>", "</div>", "</style>", "</template>", "<p>", "<a href=x>", "<td>", "<plaintext>",
 	"{}", "[]", `{"a":1}`, `[1,"<b>"]`, "{", "[", "null", "true", "0",
+	// text beyond ASCII: multi-byte characters next to the special ones, blanks that are not ASCII
+	// blanks, look-alikes of the special characters, combining marks, right-to-left marks
+	"é<", "<é", "日本語&", "😀\"", "'😀", "İ", "ß>", "\u00a0<b>", "\u2028<", "\u3000", "\u200b{{ secret }}", "e\u0301<", "\u200f>", "＜script＞", "﹤", "＆amp;", "{{ secrét }}", "｛｛ secret ｝｝", "\ufeff<", "\U0001F468\u200d\U0001F469\u200d\U0001F467&",
 	"{{ w2 }}", "{{w2}}", "{{ w2 | upper }}", "{k: secret}", "{secret: yes}", "{ 'a b': secret }", "{{ secret }", "secret", "secret | upper", "yes ? secret : 1",
 }
 
